@@ -117,13 +117,32 @@ let parse7 (s : string) : packet7 =
     P7Connected (zs ack, unhex tok, ty)
   | _ -> failwith "packet"
 
-(* the coder parameter, from the side channel *)
-let huff (side : string) : bytes -> nat -> bytes option =
-  fun _ _ ->
-    if side = "." then failwith "unexpected huffman call"
-    else if side = "!" then None
-    else if side = "P" then failwith "real huffman coder panicked"
-    else Some (unhex side)
+(* the coder parameter: the answer of the real coder from the side channel; for short inputs the
+   extracted model of the coder (Model/PacketInst.v = Model/Huffman.v over the built-in table) is run
+   as well and must give the same answer *)
+let huff_side (side : string) : bytes option =
+  if side = "." then failwith "unexpected huffman call"
+  else if side = "!" then None
+  else if side = "P" then failwith "real huffman coder panicked"
+  else Some (unhex side)
+
+let cross_limit = 160
+let none_seen = ref 0
+
+let huff_c (side : string) : bytes -> nat -> bytes option =
+  fun x cap ->
+    let s = huff_side side in
+    if List.length x <= cross_limit && PacketInst.tw_comp x cap <> s then failwith "huffman model disagrees (compress)";
+    s
+
+let huff_d (side : string) : bytes -> nat -> bytes option =
+  fun y cap ->
+    let s = huff_side side in
+    (* a capacity error means decoding until the buffer is full: check only every 16th of those *)
+    let sample = (match s with Some d -> List.length d <= 400 | None -> (incr none_seen; !none_seen land 15 = 0)) in
+    if List.length y <= cross_limit && sample
+       && PacketInst.tw_decomp y cap <> s then failwith "huffman model disagrees (decompress)";
+    s
 
 let hint_of = function "n" -> None | "t" -> Some true | _ -> Some false
 
@@ -318,18 +337,18 @@ let run = function
       Buffer.add_string b (hp kind (set_nth f idx (string_of_int v))); Buffer.add_char b ';'
     done;
     Printf.sprintf "%08x" (fnv (Buffer.contents b))
-  | ["w6"; cap; p; side] -> wres_txt (Packet6.write6_full (huff side) (parse6 p) (ni cap))
-  | ["w7"; cap; p; side] -> wres_txt7 (Packet7.write7_full (huff side) (parse7 p) (ni cap))
-  | ["r6"; hint; cap; h; side] -> rres_txt6 (Packet6.read6 (huff side) (unhex h) (hint_of hint) (ni cap))
+  | ["w6"; cap; p; side] -> wres_txt (Packet6.write6_full (huff_c side) (parse6 p) (ni cap))
+  | ["w7"; cap; p; side] -> wres_txt7 (Packet7.write7_full (huff_c side) (parse7 p) (ni cap))
+  | ["r6"; hint; cap; h; side] -> rres_txt6 (Packet6.read6 (huff_d side) (unhex h) (hint_of hint) (ni cap))
   | ["rp6"; hint; h] -> rres_txt6 (Packet6.read_nodecomp6 (unhex h) (hint_of hint))
   | ["rD6"; hint; cap; h] ->
     let pre = unhex h and b = Buffer.create 16384 in
     for v = 0 to 255 do
-      Buffer.add_string b (rres_txt6 (Packet6.read6 (huff ".") (pre @ [z_of_int v]) (hint_of hint) (ni cap)));
+      Buffer.add_string b (rres_txt6 (Packet6.read6 (huff_d ".") (pre @ [z_of_int v]) (hint_of hint) (ni cap)));
       Buffer.add_char b ';'
     done;
     Printf.sprintf "%08x" (fnv (Buffer.contents b))
-  | ["r7"; cap; h; side] -> rres_txt7 (Packet7.read7 (huff side) (unhex h) (ni cap))
+  | ["r7"; cap; h; side] -> rres_txt7 (Packet7.read7 (huff_d side) (unhex h) (ni cap))
   | ["rp7"; h] -> rres_txt7 (Packet7.read_nodecomp7 (unhex h))
   | ["it6"; nc; h] -> iter6 (unhex h) (zs nc)
   | ["it7"; nc; h] -> iter7 (unhex h) (zs nc)
@@ -337,10 +356,10 @@ let run = function
   | ["wc7"; cap; v; h] -> cres_txt (Packet7.write_chunk7_full (unhex h) (vital_of v) (ni cap))
   | ["ini6"; h] -> if Packet6.is_initial6 (unhex h) then "1" else "0"
   | ["dn6"; cap; h; side] ->
-    (match Packet6.decompress_if_needed6 (huff side) (unhex h) (ni cap) with
+    (match Packet6.decompress_if_needed6 (huff_d side) (unhex h) (ni cap) with
      | Ok None -> "false" | Ok (Some s) -> "true " ^ hex s | Err _ -> "err" | Panic _ -> "panic" | OutOfFuel -> "hang")
   | ["dn7"; cap; h; side] ->
-    (match Packet7.decompress_if_needed7 (huff side) (unhex h) (ni cap) with
+    (match Packet7.decompress_if_needed7 (huff_d side) (unhex h) (ni cap) with
      | Ok None -> "false" | Ok (Some s) -> "true " ^ hex s | Err _ -> "err" | Panic _ -> "panic" | OutOfFuel -> "hang")
   | ["u8"; h] ->
     let pre = unhex h in
